@@ -43,6 +43,8 @@ type ExecEvent struct {
 	DepDigest string `json:"dep_digest,omitempty"`
 	WrongDeps string `json:"wrong_deps,omitempty"`
 	Machine   string `json:"machine,omitempty"`
+	StartMS   int64  `json:"start_ms"`
+	EndMS     int64  `json:"end_ms"`
 
 	wrongListings map[string]string
 }
@@ -372,7 +374,7 @@ func (w *wbuild) handler(inv *simexec.Invocation) (int, error) {
 		return ev.Exit, nil
 	}
 	// ---- target command
-	ev := ExecEvent{Inv: invN, Label: s.Label(), Kind: "cmd", Start: inv.StartStep, Machine: m.Name}
+	ev := ExecEvent{Inv: invN, Label: s.Label(), Kind: "cmd", Start: inv.StartStep, Machine: m.Name, StartMS: inv.StartSim.Milliseconds()}
 	w.mu.Lock()
 	w.running++
 	if w.running > w.maxRun {
@@ -457,6 +459,7 @@ func (w *wbuild) handler(inv *simexec.Invocation) (int, error) {
 		alive = inv.Sleep(dur - dur/2)
 	}
 	ev.End = w.s.Steps()
+	ev.EndMS = w.s.SimElapsed().Milliseconds()
 	ev.Killed = !alive
 	if s.Fail == "exit" || extFail == "exit" {
 		ev.Exit = 1
